@@ -99,7 +99,7 @@ func checkC04(c C04Case, st *stats.Collector) error {
 	for _, m := range modes {
 		opts := append([]mcap.ReadOpt{}, m.opts...)
 		if c.Topics != nil {
-			opts = append(opts, mcap.WithTopics(c.Topics))
+			opts = append(opts, mc.Topics(c.Topics))
 		}
 		opts = append(opts, wopts...)
 		label := fmt.Sprintf("%s, topics=%v, %s [%d,%d)", m.name, c.Topics, exprNames[c.Expr], c.S, c.E)
